@@ -206,6 +206,10 @@ func GetMsgSig(msg *PSIPMsg) (MsgSig, ErrorHdr) {
 	if !msg.Request() {
 		return sig, ErrHdrEmpty // no sig, not request
 	}
+	if msg.state != SIPMsgFIN && msg.state != SIPMsgNoCLen {
+		// not (completely) parsed: msg.Buf is set only at the end
+		return sig, ErrHdrEmpty
+	}
 	sig.Method = msg.FL.MethodNo
 	// call-id
 	cid := msg.PV.GetCallID().CallID.Get(msg.Buf)
